@@ -245,6 +245,74 @@ def handmade(ctx, rng, text, tier):
             observe(ctx, ffp, t, False, '', 0.0, [], entry, None, None, wl, 'handmade/' + name)
 
 
+RULE += ('; same-path sequences: 2-3 records differing in dt, label and length saved one after the other to ONE path, every entry point called after each save '
+         'and compared with the model of the text on disk at that moment')
+
+
+def save_to(ctx, ffp, label, dt, vals, how):
+    """save_one onto a given path (the path may already hold another record)"""
+    import eqsig
+    from eqsig import loader
+    if how == 'values':
+        r = guarded(loader.save_values_and_dt, ffp, [float(x) for x in vals], dt, label)
+    else:
+        cls = eqsig.AccSignal if how == 'acc' else eqsig.Signal
+        r = guarded(loader.save_signal, ffp, cls(np.array(vals), dt, label=label))
+    if isinstance(r, ImplError):
+        ctx.rep.violation('save_signal', {'function': 'save_signal', 'args': {'label': label, 'dt': dt, 'values': [float(x) for x in vals], 'how': how}, 'impl_error': str(r)})
+        return None
+    with open(ffp, newline='') as f:
+        return f.read()
+
+
+def same_path_sequences(ctx, rng, tier):
+    """several records saved one after the other to ONE path, every loader entry point called after each save: each load is
+    compared with the model of the text that is on disk at that moment (a loader that remembers anything about a path - header,
+    dt, label, length - from an earlier load is exhibited by the second round). Successive records differ in dt (4th decimal and
+    beyond), label and length; the recorded sequence is kept in the replay."""
+    nseq = 8 if tier == 'quick' else 40
+    fixed = [[('first record', 0.01, [0.5, -1.25, 2.0, 0.0, 3.5]), ('second record', 0.02, [1.0, 2.0, 3.0])],
+             [('m1', 0.005, [1.5, -2.5]), ('other', 0.05, [0.25, 0.5, 0.75, 1.0, -1.0, 7.0]), ('m1', 0.005, [9.0])]]
+    for k in range(nseq):
+        if k < len(fixed):
+            seq = [(lab, dt, np.array(v, dtype=float), 'fixed') for lab, dt, v in fixed[k]]
+        else:
+            seq, used = [], set()
+            for _ in range(rng.choice([2, 2, 3])):
+                while True:
+                    dt, dstyle = gen_dt(rng)
+                    if round(float(dt), 4) not in used and round(float(dt), 4) > 0:
+                        break
+                used.add(round(float(dt), 4))
+                vals, style = gen_values(rng, rng.randint(1, 24))
+                while True:
+                    lab = gen_label(rng)
+                    if all(lab != l0 for l0, _, _, _ in seq):
+                        break
+                seq.append((lab, dt, vals, '%s/%s' % (style, dstyle)))
+        ffp = ctx.path()
+        history = []
+        for rnd, (label, dt, vals, klass) in enumerate(seq):
+            how = ['acc', 'sig', 'values'][(k + rnd) % 3]
+            text = save_to(ctx, ffp, label, dt, vals, how)
+            if text is None:
+                break
+            n0 = len(ctx.cases)
+            e0 = {site: id(rp) for site, rp in ctx.errs.items()}
+            all_entries(ctx, rng, ffp, text, True, label, dt, vals, 'same-path/round%d/%s' % (rnd + 1, klass), full=True)
+            note = {'round': rnd + 1, 'earlier_saves_to_this_path_(each_followed_by_loads)': list(history)}
+            for c in ctx.cases[n0:]:
+                c.replay['same_path_sequence'] = note
+            for site, rp in ctx.errs.items():
+                if e0.get(site) != id(rp):
+                    rp['same_path_sequence'] = note
+            history.append({'label': label, 'dt': dt, 'values': [float(x) for x in vals], 'saved_with': how, 'file_text': text})
+        try:
+            os.remove(ffp)
+        except OSError:
+            pass
+
+
 def run(rep, rng, tier):
     rep.prove('Prop_C16')
     ctx = Ctx(rep)
@@ -278,6 +346,7 @@ def run(rep, rng, tier):
             if len(vals) <= 40 and (k % 4 == 0 or klass == 'corpus'):
                 handmade(ctx, rng, text, tier)
             os.remove(ffp)
+        same_path_sequences(ctx, rng, tier)
         # the shipped test file (exponent notation), load only
         src = os.path.join(os.path.dirname(os.path.dirname(os.path.abspath(__file__))), 'data', 'test_motion_dt0p01.txt')
         lines = open(src).read().split('\n')
@@ -339,6 +408,11 @@ def replay_call(replay):
     d = tempfile.mkdtemp(prefix='c16r_')
     try:
         ffp = os.path.join(d, 'f.txt')
+        for prev in (replay.get('same_path_sequence') or {}).get('earlier_saves_to_this_path_(each_followed_by_loads)', []):
+            with open(ffp, 'w', newline='') as f:      # earlier rounds of a same-path sequence: same text, loaded through every entry point
+                f.write(prev['file_text'])
+            for nm, kw in (('load_values_and_dt', {}), ('load_signal', {}), ('load_sig', {}), ('load_asig', {'load_label': True})):
+                guarded(getattr(loader, nm), ffp, **kw)
         with open(ffp, 'w', newline='') as f:
             f.write(a['file_text'])
         fn = getattr(loader, a['call'].split('[')[0])
